@@ -245,6 +245,8 @@ def enc_setup(E):
 def enc_cases(E, ctx):
     t = ops.seq_term_as(ctx.nibbles, "int")
     x = strip(t)
+    if isinstance(ctx.nibbles, SSeq) and E.implied(mk_bool(terminated(t))):
+        x = E.get_slice(ctx.nibbles, None, -1).t        # the very term the code computes for nibbles[:-1]
     term = terminated(t)
     side = []
     ok = allnib_of(x, side, B2N)
